@@ -127,6 +127,7 @@ func normReq(s string, tags map[string]string, goOf map[string]string) string {
 }
 
 type handlerInfo struct {
+	tb      *TB
 	fn      *ssa.Function
 	tags    map[string]string
 	goOf    map[string]string
@@ -135,7 +136,7 @@ type handlerInfo struct {
 }
 
 func analyseHandler(w *World, tb *TB, h *ssa.Function) *handlerInfo {
-	hi := &handlerInfo{fn: h, tags: map[string]string{}, goOf: map[string]string{}}
+	hi := &handlerInfo{tb: tb, fn: h, tags: map[string]string{}, goOf: map[string]string{}}
 	EachInstr(h, func(in ssa.Instruction) {
 		ci, ok := in.(ssa.CallInstruction)
 		if !ok || CalleeName(ci.Common()) != "encoding/json.Unmarshal" || len(ci.Common().Args) != 2 {
@@ -162,7 +163,9 @@ func analyseHandler(w *World, tb *TB, h *ssa.Function) *handlerInfo {
 	return hi
 }
 
-func (hi *handlerInfo) norm(t *Term) string { return normReq(t.String(), hi.tags, hi.goOf) }
+func (hi *handlerInfo) norm(t *Term) string {
+	return normReq(hi.tb.Norm(t).String(), hi.tags, hi.goOf)
+}
 
 // structFields returns field -> normalised value for a struct-valued (or pointer-to-local-struct) argument.
 func (hi *handlerInfo) structFields(tb *TB, t *Term) map[string]string {
